@@ -117,7 +117,7 @@ theorem L.roundtrip (V : ValueRT) (l : L) (x : Rec) (e : Env) (r : Bytes) (h : l
   | fields nm rest ih =>
     obtain ⟨hf, hr⟩ := h
     simp only [L.read, L.write, L.expect, List.append_assoc]
-    generalize (x nm).toMap = m at hf hr ⊢
+    generalize (x nm).toMapN = m at hf hr ⊢
     cases m with
     | none =>
       simp only at hr ⊢
@@ -149,5 +149,12 @@ theorem L.roundtrip (V : ValueRT) (l : L) (x : Rec) (e : Env) (r : Bytes) (h : l
     · simp only [c, if_true] at hb hr ⊢
       rw [D.bind_some (ihb _ _ hb)]
       exact ihr _ _ hr
+  | ver min v rest ih =>
+    obtain ⟨h1, h2, h3⟩ := h
+    simp only [L.read, L.write, L.expect, List.cons_append]
+    rw [D.bind_some (rdU1_cons v _ h2)]
+    have : ¬ v < min := by omega
+    simp only [this, if_false]
+    exact ih _ _ h3
 
 end Step
